@@ -1,6 +1,7 @@
 """C16 harness conditions for CrossHair: the real EpochManager and stan_epochs are executed
 symbolically (integers symbolic); oracles are the reference predicates below."""
 import logging
+import os
 from typing import List, Tuple
 
 logging.disable(logging.WARNING)
@@ -89,6 +90,45 @@ def check_append_later(cfgs: List[Tuple[int, int, int]], extra: Tuple[int, int, 
         return False
     st = mgr.next()
     return st.nth_epoch == len(cfgs) and st.time_before_epoch == sum(c[1] for c in cfgs)
+
+
+NCF = int(os.environ.get("NCF", "2"))          # length of the constructor schedule (splits the work over processes)
+LASTT = int(os.environ.get("LASTT", "-1"))     # type of its last epoch, -1 = symbolic
+
+
+def check_append_sequence(cfgs: List[Tuple[int, int, int]], e1: Tuple[int, int, int], e2: Tuple[int, int, int]) -> bool:
+    """
+    two appends in a row on a live manager (as Engine.append_epoch does): each is accepted iff the schedule ACCEPTED SO FAR extended by it
+    is valid -- a rejected append leaves the manager exactly as it was
+    pre: len(cfgs) == NCF
+    pre: all(0 <= t <= 4 for t, d, th in cfgs) and 0 <= e1[0] <= 4 and 0 <= e2[0] <= 4
+    pre: LASTT < 0 or cfgs[-1][0] == LASTT
+    post: _ == True
+    """
+    if not valid(cfgs):
+        return True
+    mgr = EpochManager([EpochConfig(EpochType(t), d, th, None) for t, d, th in cfgs])
+    acc = list(cfgs)
+    for e in (e1, e2):
+        t, d, th = e
+        try:
+            mgr.append(EpochConfig(EpochType(t), d, th, None))
+            ok = True
+        except RuntimeError:
+            ok = False
+        if ok != valid(acc + [e]):
+            return False
+        if ok:
+            acc = acc + [e]
+    n = 0
+    start = 0
+    while mgr.has_more():
+        st = mgr.next()
+        if st.nth_epoch != n or st.time_before_epoch != start or st.config.duration != acc[n][1] or int(st.config.type) != acc[n][0]:
+            return False
+        start += acc[n][1]
+        n += 1
+    return n == len(acc)
 
 
 def _stan_ok(warmup: int, q: int, tp: int, init: int, term: int, base: int, tw: int) -> bool:
